@@ -99,14 +99,23 @@ def gen_units(units, rnd, n):
 def layout_items(uexprs):
     items = []
     for i, ue in enumerate(uexprs):
-        lines = ["using U = decltype(%s);" % ue]
+        lines = ["using U = decltype(%s);" % ue,
+                 # default-INITIALISATION (`T x;`, a member of a default-initialised aggregate, an array
+                 # element) is not value-initialisation (`T{}`): read inside a constant expression, it is
+                 # only accepted if the default constructor really initialises the value
+                 "template <class T> constexpr auto dflt_local() { T x; return x.in(U{}); }",
+                 "template <class T> struct Holder { T member; int other = 1; };",
+                 "template <class T> constexpr auto dflt_member() { Holder<T> h; return h.member.in(U{}); }",
+                 "template <class T> constexpr auto dflt_array() { T a[2]; return a[1].in(U{}); }"]
         for j, r in enumerate(REPS11):
             lines.append("using R%d = %s; using Q%d = au::Quantity<U, R%d>; using P%d = au::QuantityPoint<U, R%d>;" % (j, r, j, j, j, j))
             for X in ("Q", "P"):
                 lines.append(
                     "static_assert(sizeof({X}{j}) == sizeof({r}) && alignof({X}{j}) == alignof({r}), \"size/alignment of {X}<U,{r}>\");\n"
                     "static_assert(std::is_trivially_copyable<{X}{j}>::value && std::is_trivially_destructible<{X}{j}>::value && std::is_standard_layout<{X}{j}>::value, \"triviality/layout of {X}<U,{r}>\");\n"
-                    "static_assert({X}{j}{{}}.in(U{{}}) == R{j}{{}}, \"default construction of {X}<U,{r}> yields {r}{{}}\");"
+                    "static_assert({X}{j}{{}}.in(U{{}}) == R{j}{{}}, \"default construction of {X}<U,{r}> yields {r}{{}}\");\n"
+                    "static_assert({X}{j}().in(U{{}}) == R{j}{{}}, \"value-initialisation {X}<U,{r}>() yields {r}{{}}\");\n"
+                    "static_assert(dflt_local<{X}{j}>() == R{j}{{}} && dflt_member<{X}{j}>() == R{j}{{}} && dflt_array<{X}{j}>() == R{j}{{}}, \"default-INITIALISED {X}<U,{r}> (local, member, array element) holds {r}{{}}\");"
                     .format(X=X, j=j, r=r))
         items.append(witness.Item("layout:%s" % ue, "\n".join(lines), "accept", None,
                                   dict(desc="layout facts of Quantity / QuantityPoint of %s for 11 reps" % ue)))
@@ -316,7 +325,7 @@ def body(ctx):
         trusted_base=["clang 14 / g++ 12 front ends", "clang-query-14 AST matchers", "clang lowering to LLVM IR; opt-14 sroa/inline/simplifycfg",
                       "vlib/ir.py, vlib/dag.py normalisation rules (commutative order, compare direction, bool round trips)"],
         evaluations=nob + nW, distinct_nontrivial=nob + nW,
-        rule="shape rule instances (AST) + one W item per (unit, 11 reps) layout block and per (rep, operator) + one IR wrapper pair per (rep, operator) + one identity-dataflow wrapper per (form, rep, unit)",
+        rule="shape rule instances (AST) + one W item per (unit, 11 reps) layout block (size, alignment, triviality; value-initialisation with {} and (), and DEFAULT-initialisation of a local, a member of a default-initialised aggregate and an array element, each read inside a constant expression, all yield R{}) and per (rep, operator) + one IR wrapper pair per (rep, operator) + one identity-dataflow wrapper per (form, rep, unit)",
         samples=[dict(shape_member=shape["member"]), sample_dag or {},
                  dict(layout_item=items[0].key), dict(roundtrip=names[0][0])],
         exhaustive=False,
